@@ -3,6 +3,7 @@ package props
 import (
 	"fmt"
 	"go/types"
+	"regexp"
 	"sort"
 	"strings"
 
@@ -56,7 +57,7 @@ func fieldStores(a *ssa.Alloc) map[string][]ssa.Value {
 
 // C19: third-party frames survive only for allow-listed services.
 func C19(p *core.Program, r *core.Report) {
-	r.Explanation = "H1: HasRootDomain's decision structure equals `parse the URL (after http: prefixing of scheme-relative values); host == root or host ends with \".\"+root` (decision-list conformance on the SSA of the function). H2: in every function of package embed, each construction of a webdoc.Embed is unreachable once the `true` edges of its HasRootDomain tests are removed (guard-cut), i.e. an embed is only produced for a URL that passed the host test. H3: the constant root arguments are exactly the documented allow-list and are paired with the matching Type literal; the id is computed from the same URL value that was tested. H5: Embed.GenerateOutput builds the placeholder as a DOM element whose data-type/data-id attributes are the embed's Type/ID and serialises it with dom.OuterHTML (escaping by the serializer). H4: iframe/object/embed fall into converter switch clauses that return false without StartNode, so an unrecognised frame is dropped. H6: the only wholesale copies of source elements outside tables/captions/embeds are Image/Figure elements, and what the image extractor stores there is pruned to img/source (shared with C04-V2/C05-S3), so no frame can ride along inside a picture."
+	r.Explanation = "H1: HasRootDomain's decision structure equals `parse the URL (after http: prefixing of scheme-relative values); host == root or host ends with \".\"+root` (decision-list conformance on the SSA of the function). H2: in every function of package embed, each construction of a webdoc.Embed is unreachable once the `true` edges of its HasRootDomain tests are removed (guard-cut), i.e. an embed is only produced for a URL that passed the host test. H3: the constant root arguments are exactly the documented allow-list and are paired with the matching Type literal; the id is computed from the same URL value that was tested. H5: Embed.GenerateOutput builds the placeholder as a DOM element whose data-type/data-id attributes are the embed's Type/ID and serialises it with dom.OuterHTML (escaping by the serializer). H4: iframe/object/embed fall into converter switch clauses that return false without StartNode, so an unrecognised frame is dropped. H7: on every decision path of the three extractors that stores a placeholder ID, the value is strings.TrimSpace of an element of strings.Split(parsed.Path, slash) taken in a scan from the last segment backwards and decided non-empty (and not the keyword embed/video), or the data-tweet-id attribute of a rendered tweet decided non-empty. H6: the only wholesale copies of source elements outside tables/captions/embeds are Image/Figure elements, and what the image extractor stores there is pruned to img/source (shared with C04-V2/C05-S3), so no frame can ride along inside a picture."
 	r.NotCovered = "parsing of ids/params from path and query (string-valued behaviour), net/url's own host parsing, what surrounds the placeholder (C05/C09)."
 
 	// H1
@@ -259,4 +260,73 @@ func C19(p *core.Program, r *core.Report) {
 	}
 	// ---- H6
 	checkPicturePruning(p, r, "H6")
+	// ---- H7: the id of a placeholder is the last non-empty path segment of the tested URL
+	// (not "embed"/"video"), or the tweet id attribute of a rendered tweet. Decision paths of each
+	// extractor's Extract with its helpers expanded; the stored ID is rendered per path.
+	reSeg := regexp.MustCompile(`^strings\.TrimSpace\(elem\(strings\.Split\(url\.ParseRequestURI\(.*\)#0\.Path,"/"\)\)\)$`)
+	// the scan starts at the last segment: the loop test is on an index that starts at len-1 and counts down
+	reLast := regexp.MustCompile(`^loop\d+\((μ\(\(@0 - 1\)\|)?\(len\(strings\.Split\(url\.ParseRequestURI\(.*\)#0\.Path,"/"\)\) - 1\)\)? <= -1\)$`)
+	for _, ex := range []struct{ typ, skip string }{{"YouTubeExtractor", "embed"}, {"VimeoExtractor", "video"}, {"TwitterExtractor", ""}} {
+		fn := mustInl(p, r, "H7", "(*mod/internal/extractor/embed."+ex.typ+").Extract")
+		if fn == nil {
+			continue
+		}
+		paths, _, err := core.EnumerateDecisions(p, fn, core.DecisionOpts{ResolvePhis: true,
+			Outcome: func(in ssa.Instruction, c *core.Canon) (string, bool) {
+				if _, ok := in.(*ssa.Return); ok {
+					return "return", true
+				}
+				return "", false
+			},
+			Event: func(in ssa.Instruction, c *core.Canon) (string, bool) {
+				if st, ok := in.(*ssa.Store); ok && strings.HasSuffix(c.Of(st.Addr), "webdoc.Embed).ID") {
+					return "id=" + c.Of(st.Val), true
+				}
+				return "", false
+			}})
+		if err != nil {
+			r.Undecided("H7", ex.typ+".Extract", err.Error())
+			continue
+		}
+		n, bad := 0, 0
+		var wit []string
+		for _, pa := range paths {
+			for _, ev := range pathEvents(pa) {
+				if !strings.HasPrefix(ev, "id=") {
+					continue
+				}
+				v := strings.TrimPrefix(ev, "id=")
+				if v == `""` && litOf(pa, `"" == ""`) == -1 {
+					continue // infeasible: the empty id was tested to be non-empty
+				}
+				n++
+				ok := litOf(pa, v+` == ""`) == -1
+				switch {
+				case reSeg.MatchString(v):
+					if ex.skip != "" && litOf(pa, v+` == "`+ex.skip+`"`) != -1 {
+						ok = false
+					}
+					// scanned from the last segment backwards
+					last := false
+					for _, l := range pa.Lits {
+						if reLast.MatchString(l.Atom) {
+							last = true
+						}
+					}
+					ok = ok && last
+				case ex.typ == "TwitterExtractor" && v == `dom.GetAttribute($1,"data-tweet-id")`:
+				default:
+					ok = false
+				}
+				if !ok {
+					bad++
+					if len(wit) < 2 {
+						wit = append(wit, pa.String())
+					}
+				}
+			}
+		}
+		r.Add("H7", ex.typ+": the id is the last non-empty path segment of the URL", p.Pos(fn.Pos()), n > 0 && bad == 0,
+			fmt.Sprintf("%d decision paths store an ID, %d of them with a value of another shape or without the non-empty/keyword tests", n, bad), wit...)
+	}
 }
